@@ -37,6 +37,8 @@ type simSpec struct {
 	EvalKeys   []string // monitor counters that count as deciding evaluations for this property
 	Phases     []core.Phase
 	After      func(env *core.Env, i int, w *sim.World, res *core.Result)
+	// AdoptSafety re-labels violations of other properties as violations of this one ("<prop>:<sig>").
+	AdoptSafety bool
 }
 
 var modes = []string{"seq", "rand", "lag", "rand", "lag"}
@@ -114,7 +116,11 @@ func collect(spec *simSpec, env *core.Env, i int, sc simCase, w *sim.World, wl *
 			d["trace"] = w.Trace
 			first = false
 		}
-		res.Violate(core.Violation{Prop: v.Prop, Sig: v.Sig, Msg: v.Msg, Case: i, Detail: d})
+		prop, sig, msg := v.Prop, v.Sig, v.Msg
+		if spec.AdoptSafety && prop != spec.ID {
+			prop, sig, msg = spec.ID, "safety:"+v.Prop+":"+v.Sig, "["+v.Prop+" under faults] "+v.Msg
+		}
+		res.Violate(core.Violation{Prop: prop, Sig: sig, Msg: msg, Case: i, Detail: d})
 	}
 }
 
